@@ -44,7 +44,23 @@ def run(spec):
     return res
 
 
+def _debug_logging():
+    import logging
+
+    class Null(logging.Handler):
+        def emit(self, record):
+            self.format(record)          # the message is rendered (as a real handler would), nothing is written
+
+    lg = logging.getLogger('cardutil')
+    lg.addHandler(Null())
+    lg.setLevel(logging.DEBUG)
+    lg.propagate = False
+
+
 def main(argv):
+    if argv and argv[0] == '--debug-logging':
+        _debug_logging()
+        argv = argv[1:]
     if argv and argv[0] == '--batch':
         specs = json.load(sys.stdin if argv[1] == '-' else open(argv[1]))
         out = [run(s) for s in specs]
@@ -53,6 +69,8 @@ def main(argv):
     spec = json.load(open(argv[0]))
     if spec.get('mode') == '-O' and sys.flags.optimize == 0:
         os.execv(sys.executable, [sys.executable, '-O', __file__] + argv)
+    if spec.get('mode') == 'debug-logging':
+        _debug_logging()
     res = run(spec)
     print(json.dumps(res, indent=1))
     if res.get('violated'):
